@@ -6,7 +6,7 @@ KIND_NAMES = (
 INSTR_NAMES = (
     "Idle", "DispatchTrip", "DispatchStation", "ChargeStation", "ChargeBase", "DispatchBase", "ReserveBase",
     "OutOfService", "Reposition", "DispatchStation_s1", "ChargeStation_s1", "DispatchBase_b1", "ReserveBase_b1",
-    "DispatchTrip_missing", "ChargeBase_b1", "DispatchPoolingTrip", "ChargeBase_b2",
+    "DispatchTrip_missing", "ChargeBase_b1", "DispatchPoolingTrip", "ChargeBase_b2", "DispatchPoolingTrip_allowed",
 )
 N_KINDS = len(KIND_NAMES)
 N_INSTR = len(INSTR_NAMES)
